@@ -5,6 +5,14 @@ import streams as S
 
 def main(args):
     p = json.load(open(args[0]))
+    ev = p.get("events")
+    if str(p.get("profile", "")).startswith("dbfiles:") or p.get("engine") == "dbfiles" \
+            or (isinstance(ev, dict) and ev.get("engine") == "dbfiles"):
+        import dbfiles
+        return dbfiles.replay(p)
+    if isinstance(p.get("detail"), dict) and p["detail"].get("meta"):
+        import metamorphic
+        return metamorphic.replay_main(p)
     if not p.get("events") or p.get("cfg") is None:
         print(json.dumps(p, indent=1)[:4000])
         return 0
